@@ -18,7 +18,7 @@ from .. import AnalysisError, anf
 from ..anf import Rat, sym
 from ..guards import G, TRUE, FALSE, g_and, g_not, g_or, g_equiv, g_implies, g_sat, compare, canon_sign, OPS, count_true
 from ..gvn import Frame, Obj, PW, Vec, cases_of, veq, mk_pw, Unsupported
-from .common import RuleCtx, _short, split_at_loop, stored_names, range_args, sign_set_name
+from .common import RuleCtx, _short, split_at_loop, stored_names, range_args, sign_set_name, returned_names
 
 C = Rat.const
 LINKAGES = ["single_linkage", "complete_linkage", "centroid_linkage", "average_linkage"]
@@ -62,11 +62,11 @@ def _one(rc: RuleCtx, name: str):
         fr.block(pre, env, TRUE)
     except Unsupported as e:
         raise AnalysisError(f"{fi.qualname}: pre-loop code not modelled: {e}")
-    ret = [st for st in post if isinstance(st, ast.Return)]
-    if len(ret) != 1:
+    rn = returned_names(post)
+    if rn is None:
         raise AnalysisError(f"{fi.qualname}: expected one return after the loop")
     # the result list: the name wrapped by np.array(...) in the return
-    rnames = [n.id for n in ast.walk(ret[0].value) if isinstance(n, ast.Name) and isinstance(n.ctx, ast.Load) and n.id in env]
+    rnames = [n for n in sorted(rn) if n in env]
     lists = [n for n in rnames if isinstance(env.get(n), Vec) and env[n].kind == "list"]
     if len(lists) != 1:
         raise AnalysisError(f"{fi.qualname}: cannot identify the label list returned")
